@@ -11,7 +11,7 @@ import refrun
 import syntaxrun
 
 GAPS = [" ", " ", "  ", "\n", "\n\n", "\n    ", "      ", " \n  ", "\n\n\n"]
-STRINGS = ['"a\nb"', '"é\n€\n\U0001F600"', '"\n"', '"x\\n\ny"', '"é"', '"  two  spaces  "', '"// not a comment"', '"{ [ ("', '"a\n    indented\n  b"']
+STRINGS = ['"ends in blanks   \n  x"', '"tab\t\nend \n"', '"a\nb"', '"é\n€\n\U0001F600"', '"\n"', '"x\\n\ny"', '"é"', '"  two  spaces  "', '"// not a comment"', '"{ [ ("', '"a\n    indented\n  b"']
 
 
 def perturb(rnd, src, toks, wild=False):
@@ -44,6 +44,31 @@ def perturb(rnd, src, toks, wild=False):
     return "".join(out) + tail
 
 
+def signatures(rnd, n):
+    """One-line function and method signatures around the 100-column wrapping limit, with and without the
+    spaces the formatter inserts (`x:Int` becomes `x: Int` and may push the line over the limit)."""
+    out = []
+    for _ in range(n):
+        target = rnd.randint(88, 112)
+        sep = rnd.choice([":", ": ", ":"])
+        head = rnd.choice(["fun ", "public fun ", "method "])
+        name = "f" + "u" * rnd.randint(1, 12)
+        params = []
+        if head == "method ":
+            params.append("this" + sep + "String")
+        k = 0
+        while True:
+            k += 1
+            cand = params + ["p" + "a" * rnd.randint(1, 9) + str(k) + sep + rnd.choice(["Int", "String", "List<Int>", "Option<String>"])]
+            line = head + name + "(" + ", ".join(cand) + ")" + sep + "Int {"
+            if len(line) > target:
+                break
+            params = cand
+        line = head + name + "(" + ", ".join(params) + ")" + sep + "Int {"
+        out.append(("signature", line + "\n  1\n}\n"))
+    return out
+
+
 def family(tier, seed, with_mutations=False):
     """-> (tlc results, [(name, text)])"""
     rnd = random.Random(seed * 53 + 17)
@@ -58,6 +83,7 @@ def family(tier, seed, with_mutations=False):
         stm = [x for x in its if x[0] == "stmt"]
         rnd.shuffle(stm)
         its = [x for x in its if x[0] != "stmt"] + stm[:400]
+    its += signatures(rnd, 40 if tier == "quick" else 300)
     corpus = [(n, s.split("\n// args: ")[0].rstrip("\n") + "\n") for n, s in fe.corpus()]
     if tier == "quick":
         rnd.shuffle(corpus)
